@@ -33,7 +33,7 @@ def pivot():
         U("A"), U("H1", disabled=True, message="m", serialize=["h1"]), U("B"),
         U("H2", disabled=True, message="m2", flags_last=True), U("C"),
         U("H3", disabled=True, attr_style="trailing"), U("D"),
-        U("H4", disabled=True, serialize=["x", "y"], attr_style="split"), U("E"),
+        U("H4", disabled=True, serialize=["x", "yy"], attr_style="split"), U("E"),
     ], note="`disabled` sharing one #[strum(..)] attribute with key = value items (before and after them), with a trailing comma, and split over attributes"))
     S.append(EnumSpec("Eight", [U("V%d" % i, disabled=(i in (0, 4, 9))) for i in range(11)], note="8 enabled of 11"))
     return S
